@@ -43,7 +43,7 @@ CLAIMED = {
     "C12": ("other", "DESIGN.md#c12", "symbolic execution of ray_triangle.ray_triangle_id / ray_bounds, triangles.closest_point and points_to_barycentric on z3 reals with the r-tree replaced by its contract; definitional oracle (exact plane/line intersection, barycentric inclusion, existential closer-point query); replay on float code",
             "Pruning soundness of ray_bounds for ALL rays, boxes and ray parameters; for catalogue triangles x catalogue directions x EVERY origin the reported hits equal the all-triangles definition at margin (hit / behind / miss, single and two triangles, first-hit = nearest); "
             "closest_point for catalogue triangles x EVERY query point: the result is in the triangle and the solver finds no closer point of the triangle on any of the seven region paths; barycentric coordinates exact.",
-            TRUSTED + "r-tree contract stub; embree (compiled) and the 'both engines agree' clause not claimed; containment / signed distance / proximity.closest_point over meshes (kd-tree, r-tree candidates) not claimed in this revision; general-position margins 1e-3."),
+            TRUSTED + "r-tree contract stub; embree (compiled) and the 'both engines agree' clause not claimed; point containment and signed distance not claimed; proximity.closest_point on a two-triangle catalogue mesh with kd-tree / r-tree contract stubs; general-position margins 1e-3."),
     "C04": ("other", "DESIGN.md#c04", "symbolic execution of apply_transform of Trimesh, PointCloud, Path3D, Scene and VoxelGrid with z3-real coordinates and matrix parameters; z3 nlsat decides per path; counterexample replay",
             "For a symbolic tetrahedron and every matrix of the families translation / diag scale with all sign patterns / shear / scaled catalogue rotation / near-identity on each side of the 1e-8 and 1e-6 shortcuts: every vertex moves to M.v, faces are re-wound exactly when det<0, "
             "M then M^-1 restores the mesh, A then B equals B.A; volume scales by |det| and the centre of mass maps through M (catalogue tetrahedron, symbolic matrix); the same point law for point clouds, 3D paths (with discrete read before or not), a scene node and a voxel grid.",
